@@ -90,6 +90,7 @@ type Frame struct {
 	locals   map[string][]Val // source name -> pointer values (cells / heap cells), allocation order
 	measures map[*ssa.BasicBlock]Term
 	loopEntry map[*ssa.BasicBlock]*loopSnap // state when the loop was entered from outside (for entry(e))
+	loopHeadSnap map[*ssa.BasicBlock]*loopSnap // state at the head of the current iteration (for athead(e))
 	curLoop   *ssa.BasicBlock               // innermost loop head whose clauses are being evaluated
 	loopMark map[*ssa.BasicBlock]int // number of events on the path when the loop head was entered
 	entryView *HeapView
